@@ -1,2 +1,6 @@
+"""C19: the core state machine (priority order, warm-up pacing, autostart) and — for a daemon whose watcher list was rebuilt by
+reloadconfig — harness/props/c19_reload.py."""
 from harness.corecheck import make
-MODULE = make("C19", ["CircusProofs/Props/C19.lean"], ["CircusProofs/Core/Pres.lean", "CircusProofs/Core/Init.lean"])
+from harness.props import c19_reload
+PARTS = [make("C19", ["CircusProofs/Props/C19.lean"], ["CircusProofs/Core/Pres.lean", "CircusProofs/Core/Init.lean"]),
+         c19_reload]
